@@ -20,6 +20,12 @@ PANIC = "9999"
 
 ENGINES = {  # name -> number in Model/Engines.v
     "topic": 1,
+    "dec3": 10,
+    "enc3": 11,
+    "varint": 12,
+    "dec5": 20,
+    "enc5": 21,
+    "sniff": 22,
 }
 
 ENV = dict(os.environ)
